@@ -337,7 +337,13 @@ def run_history(ctx, rng, hid, length):
             nontrivial = False
             if k < 0.2:
                 href = rng.choice(HREFS)
-                r, events = p.both("PUT", base + href, ev(rng.choice(UIDS), rng.randint(1, 3)), CONTENT_TYPE="text/calendar")
+                if rng.random() < 0.1:
+                    # an object of the other kind (a contact into a calendar): refused on both sides - and if it were accepted, it would have
+                    # to be there with the cache and without it alike
+                    r, events = p.both("PUT", base + href, "BEGIN:VCARD\r\nVERSION:3.0\r\nUID:%s\r\nFN:wrong kind\r\nN:k;;;;\r\nEND:VCARD\r\n" % rng.choice(UIDS),
+                                       CONTENT_TYPE="text/vcard")
+                else:
+                    r, events = p.both("PUT", base + href, ev(rng.choice(UIDS), rng.randint(1, 3)), CONTENT_TYPE="text/calendar")
                 if r["status"] in (201, 204):
                     p.reads(events, drop_last_of=(cname, href))
                     raw, size, mt = p.sut.files(cname)[href]
